@@ -54,3 +54,21 @@ c16 = hdr + "".join(tex(f"C16_complit_{k}", cl(k), f"witness of exponential grow
    + tex("C16_linear_8", " ".join(f"int v{i} = {i};" for i in range(8)), "a linear family at k=8") \
    + tex("C16_linear_16", " ".join(f"int v{i} = {i};" for i in range(16)), "... and at k=16: exactly twice the token reads")
 open('/verif/coq/proofs/CostExamples.v','w').write(c16)
+
+def rt(name, text, comment, rp, expect=True):
+    return f'''(* {comment} *)
+Example ex_{name} :
+  roundtrip_ok {"true" if rp else "false"} (s2l {coqstr(text)}) = {"true" if expect else "false"}.
+Proof. vm_compute. reflexivity. Qed.
+'''
+progs = [("decls", "typedef int T; static const T a = 1, *b[3], (*fp)(int, char *); struct S { int x : 3; T y; } s = { .x = 1, .y = 2 };"),
+         ("exprs", "int f(int a, int b) { return (a + b) * (a - b) / (a ? b : -a) + sizeof(int) + (int)a % b << 2 >= (a & b | a ^ b) && !a || ~b; }"),
+         ("stmts", "void g(int n) { for (int i = 0; i < n; i++) { if (i) continue; else break; } while (n--) ; do n++; while (n < 3); switch (n) { case 1: case 2: n = 1; break; default: ; } L: goto L; }"),
+         ("nested_ops", "int h(int a, int b, int c) { return a - (b - c) + a * (b + c) - (a - b) - c + a / (b / c) + (a << b) + c; }")]
+c07 = hdr
+for nm, t in progs:
+    c07 += rt(f"C07_roundtrip_{nm}", t, "parse . generate . parse = parse and second generation = first (default configuration)", False)
+    c07 += rt(f"C07_roundtrip_rp_{nm}", t, "... and with reduce_parentheses", True)
+c07 += rt("C07_forinit_multi_refuted", "void f(void){ for (int *p = 0, *q = 0; ; ) ; }", "witness (known finding): a for-init declaration with several declarators does not round-trip", False, False)
+c07 += rt("C07_assign_lvalue_refuted", "void f(void){ (a, b) = 1; }", "witness (known finding): an assignment whose lvalue is a comma expression does not round-trip", False, False)
+open('/verif/coq/proofs/GenExamples.v','w').write(c07)
